@@ -55,6 +55,13 @@ Theorem C05_product_index_bijection : forall ps ix,
 Proof. exact product_runs_index_unique. Qed.
 Print Assumptions C05_product_index_bijection.
 
+(* The coded product run list is empty exactly when an enabled parameter has no value (no hypothesis
+   on the keys): an empty sweep never produces a spurious run, a non-empty one never loses all. *)
+Theorem C05_product_empty_iff : forall ps,
+  product_runs ps = [] <-> exists p, In p (enabled ps) /\ plen p = 0.
+Proof. exact product_runs_empty_iff. Qed.
+Print Assumptions C05_product_empty_iff.
+
 (* Sequential mode: the runs are, parameter after parameter in declaration order, the configured
    values of all swept keys with only the current parameter's key replaced by each of its values. *)
 Theorem C05_sequential : forall get ps,
